@@ -293,7 +293,7 @@ def meta(chk, tier):
     ]
     chk.stubs = ["sqlite3 -> symex.sqlstub (SQL parsed from the text the source emits; validated against the real library by tools/dualrun.py: 0 divergences on the repository's own tests)",
                  "json -> opaque JsonText for data holding symbolic tags", "float microsecond arithmetic in exact rationals (IEEE fidelity is C01's lemma)", "sqlite.datetime -> fromtimestamp on exact ratios"]
-    chk.assumptions = ["representation invariant: ids distinct, sequence >= ids, every event row owned by an existing bucket", "SQLite tie order for ORDER BY ... DESC as observed (backward index scan); violations are replayed on the real library"]
+    chk.assumptions = ["every store harness (here and in the checks that say 'as C02') also carries the obligation that a bystander — a second store object of the same kind created first, same bucket ids, one event each — comes out unchanged (memory, sqlite)", "representation invariant: ids distinct, sequence >= ids, every event row owned by an existing bucket", "SQLite tie order for ORDER BY ... DESC as observed (backward index scan); violations are replayed on the real library"]
 
 
 def main(tier, seed, args):
